@@ -13,7 +13,7 @@ FetchOps == {"get", "gets", "get_many", "gets_many", "gat", "gats"}
 ValueClasses == {"bytes", "empty", "crlf", "END", "VALUE", "n4095", "n4096", "n4097", "n8192", "big", "str", "int", "obj"}
 Serdes == {"none", "custom", "p0", "p1", "p2", "p3", "p4", "p5", "compressed"}
 KeyClasses == {"str", "bytes", "utf8", "high", "max"}
-Colls == {"list", "tuple", "set", "dictview", "iter"}
+Colls == {"list", "tuple", "set", "dictview", "iter", "listdup", "iterdup"}    \* ...dup: a key is named more than once
 
 Valid(g) == /\ (g.v = "obj" => g.serde \notin {"none", "custom"})
             /\ (g.k = "utf8" => TRUE)
@@ -43,5 +43,10 @@ GoodFetchAccepted == pc = "fetch" => Bad(TMonClauses(m, FetchEv(<< <<1, 1, TRUE,
 MissRejected      == pc = "fetch" => Bad(TMonClauses(m, FetchEv(<<>>))) # {}
 WrongValueRejected == pc = "fetch" => Bad(TMonClauses(m, FetchEv(<< <<1, 2, TRUE, TRUE>> >>))) # {}
 WrongTypeRejected == pc = "fetch" => Bad(TMonClauses(m, FetchEv(<< <<1, 1, TRUE, FALSE>> >>))) # {}
+DupEv(items) == [e |-> "fetch", keys |-> <<KeyOf(g.k), KeyOf(g.k)>>, items |-> items]
+DupOnceAccepted == pc = "fetch" => /\ Bad(TMonClauses(m, DupEv(<< <<2, 1, TRUE, TRUE>> >>))) = {}
+                                   /\ Bad(TMonClauses(m, DupEv(<< <<1, 1, TRUE, TRUE>> >>))) = {}
+DupTwiceRejected == pc = "fetch" => Bad(TMonClauses(m, DupEv(<< <<1, 1, TRUE, TRUE>>, <<2, 1, TRUE, TRUE>> >>))) # {}
+DupMissRejected == pc = "fetch" => Bad(TMonClauses(m, DupEv(<<>>))) # {}
 ForeignKeyRejected == pc = "fetch" => Bad(TMonClauses(m, FetchEv(<< <<0, 1, TRUE, TRUE>> >>))) # {}
 =============================================================================
